@@ -1157,10 +1157,10 @@ def run(res):
   opts = config.Options.create(python_version=PYVER)
   loader = load_pytd.create_loader(opts)
   n_emitted = n_crash = 0
-  t0 = time.time()
+  t0 = time.process_time()   # CPU time of this process: coverage must not depend on machine load
   budget = 600 if thorough else 30
   for i in range(n_prog):
-    if time.time() - t0 > budget:
+    if time.process_time() - t0 > budget:
       break
     pr = common.rng(res.seed, "c05prog", i)
     src = c05_prog.gen_program(pr, allow_self=FP_SELFTYPE in res.known)
@@ -1178,7 +1178,7 @@ def run(res):
     check_stub_text(res, impl, ids, pyi, {"program": src}, hist, report, unknown_violation, printed_ast=ret.ast)
   phase["programs"] = round(time.time() - tp, 1); tp = time.time()
   res.extra["program_stream"] = {"generated": i + 1, "stubs_emitted": n_emitted, "pytype_crashed_before_emitting": n_crash,
-                           "wall_s": round(time.time() - t0, 1)}
+                           "wall_s": round(time.process_time() - t0, 1)}
 
   # ---------------- (5) whole stubs in the emitted dialect, built independently of any program ----------------
   n_stub = 1500 if thorough else 150
